@@ -132,10 +132,10 @@ PROPS["C05"] = {
     "level": "fault_enumeration",
     "design_ref": "DESIGN.md §3 C05",
     "technique": "runtime monitoring with a recording NodePersistence + fault enumeration: restart of the real agent at every cut point of the store-operation log and after injected crashes (all tasks dropped at a seeded await point)",
-    "text": "The real agent runtime runs with a harness NodePersistence (public trait) that tickets every call on the same clock as the remotes' frame logs. (1) Every event frame of a persistent lane must carry a state that was handed to the store at an earlier ticket. (2) For the cut points of the store-operation log (all of them in the thorough tier and for logs up to 24 operations, a seeded third otherwise, always including the empty and the final store) the store is rebuilt from that prefix, a fresh agent instance is started against it by the real runtime, a probe syncs every lane and a handler dumps the stores: persistent lanes/stores must hold exactly the fold of the prefix, transient ones their defaults. (3) The first incarnation ends by clean stop or by a crash that drops every task at a seeded script step; the restart against the store as it survived is the final cut point.",
-    "note": _AGENT_NOTE + " The crash model is 'all tasks dropped between two polls' (what a panic or process kill does to the in-memory store contract); durability of a real on-disk store under process kill is C13's business.",
-    "runs": [{"engine": "agent"}],
-    "assumptions": ["store operations are atomic calls (the trait is synchronous)", "ids handed out by id_for survive the crash"],
+    "text": "The real agent runtime runs with a harness NodePersistence (public trait) that tickets every call on the same clock as the remotes' frame logs. (1) Every event frame of a persistent lane must carry a state that was handed to the store at an earlier ticket. (2) For the cut points of the store-operation log (all of them in the thorough tier and for logs up to 24 operations, a seeded third otherwise, always including the empty and the final store) the store is rebuilt from that prefix, a fresh agent instance is started against it by the real runtime, a probe syncs every lane and a handler dumps the stores: persistent lanes/stores must hold exactly the fold of the prefix, transient ones their defaults. (3) The first incarnation ends by clean stop or by a crash that drops every task at a seeded script step; the restart against the store as it survived is the final cut point. Runtime level (engine rawpersist): a raw agent speaking the lane byte protocol is hosted by the real AgentRouteTask::run_agent_with_store on the recording store; value and map lanes, persistent and transient, are registered during initialisation and dynamically by the running agent (WriteTaskMessage::Lane). For every frame a remote received a matching store operation with a smaller ticket must exist; at every cut of the store log nothing a remote had been shown is newer than the store; after a stop, agent return, crash, inactivity timeout or injected store failure, fresh incarnations (at the end of the log and at random cuts, registration paths re-drawn) must be handed exactly the stored state by the runtime's lane initialisation; transient lanes get nothing and never reach the store. 50 000 histories quick, 500 000 thorough.",
+    "note": _AGENT_NOTE + " rawpersist: trusted base is the harness store model (an ordered log applied to maps), the harness lane/agent and the remote-side decoders; tickets are drawn at the boundaries (inside store calls, after frame decode), so 'stored before received' is implied by, and slightly weaker than, 'stored before sent'. The crash model is 'all tasks dropped between two polls' (what a panic or process kill does to the in-memory store contract); durability of a real on-disk store under process kill is C13's business.",
+    "runs": [{"engine": "agent"}, {"engine": "rawpersist"}],
+    "assumptions": ["store operations are atomic calls (the trait is synchronous)", "ids handed out by id_for survive the crash", "rawpersist: bodies unique per case; harness lanes answer syncs atomically; no remote commands; item stores registered dynamically (add_store) are covered only at the swimos_agent level"],
 }
 
 PROPS["C14"] = {
